@@ -197,10 +197,14 @@ def run(chk: Check) -> None:
                                     "clean on re-detection (measured at pin time); C18 judges variants of these seeds, others are discarded", "seeds": ok}, indent=1))
         print(f"pinned {len(ok)} seeds")
         pins = set(tuple(x) for x in ok)
+    from .. import seeds as seeds_mod
+
+    extra_keys = {s_.key for s_ in seeds_mod.extra()}
     judged = 0
     per_trace_flags: dict[str, dict] = {}
     for scn, first, rel, cid, keys, label, descr, flagged, untouched, still in rows:
-        if any(k not in pins for k in keys):
+        # hand-written probes are judged as they are; variants of vendored seeds only when the seed itself is pinned
+        if any(k not in pins and k[1] not in extra_keys for k in keys):
             continue
         judged += 1
         flags = per_trace_flags.setdefault(first["trace"]["id"], {"untouched": False, "still": False})
